@@ -298,7 +298,7 @@ def check_common(run, pkg):
     ok_df = ret[0] == "call" and ret[1] == "pandas.DataFrame"
     cols = kw(ret, "columns") if ok_df else None
     okc = eqv(cols, ("list", (C("t"), C("time_corr"))))
-    run.ob("R-ALG", fq, "columns", bool(ok_df and okc), "result frame has columns t, time_corr", show(cols)[:60] if cols else "?",
+    run.ob("R-ALG", fq, "columns", tri(True if ok_df else None, okc), "result frame has columns t, time_corr", show(cols)[:60] if cols else "?",
            witness=None if ok_df and okc else "column order/names changed", loc=fi.loc(), sound=True)
     data = ret[2][0] if ok_df and ret[2] else None
     tcol = rcol = None
